@@ -826,7 +826,9 @@ class Model():
 
         # Reconstruct the associations
         for assoc_entry in serialized_object.get('associations', []):
-            assoc = list(assoc_entry.keys())[0]
+            # The entry holds the association type and, optionally, 'extras'.
+            # Do not rely on the type being the first key: yaml sorts keys.
+            assoc = next(key for key in assoc_entry if key != 'extras')
             assoc_fields = assoc_entry[assoc]
             association = getattr(model.lang_classes_factory.ns, assoc)()
 
